@@ -94,7 +94,10 @@ def build(r, cid, tier):
             if c2 < 0.45:
                 pl = "-"
             elif c2 < 0.65:
-                pl = hx(r.choice([b"no", b"Failed to connect to 1.2.3.4:80: refused", b"x" * 300, b"Connection timeout (15s) to example.com:80\n"]))
+                pl = hx(r.choice([b"no", b"Failed to connect to 1.2.3.4:80: refused", b"x" * 300, b"Connection timeout (15s) to example.com:80\n",
+                                  # long refusal texts in valid multi-byte UTF-8 at every alignment (a localized OS error, a non-ASCII host echoed back)
+                                  ("\u00e9" * 400).encode(), ("x" + "\u00e9" * 400).encode(), ("\u6f22" * 300).encode(), ("a" + "\u6f22" * 300).encode(),
+                                  ("ab" + "\u6f22" * 300).encode(), ("\U0001f600" * 200).encode(), ("Verbindung abgelehnt: \u00fc\u00f6\u00e4 " * 40).encode()]))
             elif c2 < 0.9:
                 # every non-empty payload is a refusal: whitespace only, NUL, one byte, very long
                 pl = hx(r.choice([b"\r\n", b"\n", b" ", b"\t", b"  \t\r\n ", b"\x00", b"\x0b", b"0", b"-", b" no ", b"y" * 65535, b" " * 65535]))
